@@ -266,7 +266,7 @@ func glueTransformCase(r *Rng, st *Stats, src string, d *dom, o glueOpts, scenar
 			if scenario == "" {
 				// known limitation: "inset" with a value that cannot be split (var()) is
 				// left alone while other "inset" declarations are lowered to the four sides
-				if ok, lowered := o.supported["inset-property"]; lowered && !ok && strings.Contains(out, "inset:") {
+				if ok, lowered := o.supported["inset-property"]; lowered && !ok && strings.Contains(strings.ToLower(out), "inset:") {
 					switch detail["property"] {
 					case "top", "right", "bottom", "left":
 						scenario = "inset-lowering-skips-unsplittable-value"
